@@ -191,7 +191,11 @@ func (q v09Query) String() string {
 	if q.V4Long && q.V4.IsValid() {
 		x = "(16-byte)"
 	}
-	return fmt.Sprintf("{name=%q v4=%s%s v6=%s %s/%d}", q.Name, ip(q.V4), x, ip(q.V6), pr, q.Port)
+	name := q.Name
+	if len(name) > 120 {
+		name = fmt.Sprintf("%s...[%d bytes]...%s", name[:40], len(name), name[len(name)-50:])
+	}
+	return fmt.Sprintf("{name=%q v4=%s%s v6=%s %s/%d}", name, ip(q.V4), x, ip(q.V6), pr, q.Port)
 }
 
 // ----------------------------------------------------------------- universe
@@ -295,6 +299,53 @@ func v09LongLine(file string, at, how int) string {
 		lines[at] = l + " #" + strings.Repeat("x", n)
 	}
 	return strings.Join(lines, "\n")
+}
+
+// v09Prefix builds a host-name prefix of exactly n bytes out of labels (<= 63 bytes each).
+func v09Prefix(n int) string {
+	b := make([]byte, n)
+	for i := range b {
+		b[i] = "pqrs"[(i/32)%4]
+		if i%32 == 31 && i != n-1 {
+			b[i] = '.'
+		}
+	}
+	return string(b)
+}
+
+// longNames (drawn after everything else): 2-4 lookups whose host names share a
+// prefix of 63/64/255/256/300/1000 bytes and differ only in the tail (tails the
+// rules' suffix/wildcard/exact patterns tell apart), then the first one again.
+// Plain ASCII names: judged by the reference like any other.
+func (c *v09Ctx) longNames(rules []v09Rule, qs []v09Query) []v09Query {
+	if c.n(0, 5, "longNames") != 0 {
+		return nil
+	}
+	prefix := v09Prefix([]int{63, 64, 255, 256, 300, 1000}[c.n(0, 5, "longPrefix")])
+	var tails []string
+	for _, d := range v09Doms {
+		if !v09HasACE(d) {
+			tails = append(tails, d)
+		}
+	}
+	for i := range rules {
+		if k := rules[i].Kind; k == v09KExact || k == v09KSuffix || k == v09KWild {
+			if w := v09Witness(&rules[i]); !v09HasACE(w.Name) && w.Name != "" {
+				tails = append(tails, w.Name, "not"+w.Name)
+			}
+		}
+	}
+	base := v09Query{Proto: 1, Port: 80}
+	if len(qs) > 0 {
+		base = qs[c.n(0, len(qs)-1, "longBase")]
+	}
+	var out []v09Query
+	for i, k := 0, c.n(2, 4, "longCount"); i < k; i++ {
+		q := base
+		q.Name = c.spellHost(prefix+"."+tails[c.n(0, len(tails)-1, "longTail")], "qSpell")
+		out = append(out, q)
+	}
+	return append(out, out[0])
 }
 
 // v09Abbrev shortens over-long lines for messages.
